@@ -125,7 +125,12 @@ def finish(prop, tier, seed, results, crashed, wall, no_evidence=False, partial=
     kf = known_findings()
     violations, known, inconclusive = [], [], []
     for r in results:
+        seen_checks = set()
         for v in r["violations"]:
+            base = v["check"].split("~")[0]
+            if base in seen_checks:  # same assertion failing on another path of the same unit
+                continue
+            seen_checks.add(base)
             k = is_known(kf, prop, r["unit"], v["check"])
             (known if k else violations).append((r, v, k))
         for m in r["inconclusive"]:
